@@ -70,16 +70,10 @@ theorem list_skips_unreadable (b : Bool) (s : Objs) (st : Option String) :
       .rels (((s.filter fun kv => lookup "owner" kv.2.labels = some "helm").filterMap (·.2.body)).filter
         fun r => match st with | none => true | some x => r.status = x) := rfl
 
-/-- `ConfigMaps.Get` on an undecodable record is an error ... -/
-theorem configmaps_get_undecodable (k : String) (l : List (String × String)) :
+/-- `Get` on an undecodable record is an error on both object drivers (`Secrets.Get` used to
+dereference the nil release: repaired in /repo, see known_findings.json). -/
+theorem get_undecodable_is_error (k : String) (l : List (String × String)) :
     (objStep false [(k, ⟨l, none⟩)] (.get k)).2 = .other := by
-  simp [objStep, Objs.get?]
-
-/-- ... while `Secrets.Get` dereferences the nil release: counterexample to "every backend answers
-like the map / never crashes" (known finding C10:secrets-get-nil-deref, replayed on the
-implementation at every run). -/
-theorem counterexample_secrets_get_undecodable (k : String) (l : List (String × String)) :
-    (objStep true [(k, ⟨l, none⟩)] (.get k)).2 = .panic := by
   simp [objStep, Objs.get?]
 
 /-! ## 3. Memory driver: the key is re-parsed -/
